@@ -25,9 +25,9 @@ func trackField(k int, p *Sx) field.Field {
 }
 
 type trackComps struct {
-	fixed                         bool
-	fc, pan, sep, name, svc, dd   string
-	exp                           string // "" = nil
+	fixed                       bool
+	fc, pan, sep, name, svc, dd string
+	exp                         string // "" = nil
 }
 
 func compsOfOp(o *Sx) trackComps {
